@@ -38,6 +38,8 @@ def sig(info):
 def run(tier):
     out = common.Outcome('C13', tier)
     parselib.self_check_templates()
+    # an empty prompt line ('>>>' alone, the spacer idiom) stands for a comment-only line where another prompt line or nothing follows
+    parselib.EXTRA['cmt'] = [[""]]
     out.rule = 'every docstring of <= N building blocks over the named alphabet of MC_DocParse.tla; one case per finished docstring; distinct by block sequence'
     for blocks, n, limit in BOUNDS[tier]:
         parselib.run_space(out, '%s<=%d' % (blocks, n), blocks, n, sig, limit=limit)
